@@ -3,7 +3,8 @@
 (* shared subexpressions.                                                   *)
 EXTENDS Integers, Sequences, FiniteSets, TLC, Json, IOUtils, SequencesExt, Randomization, ExprPool
 Thorough == "TIER" \in DOMAIN IOEnv /\ IOEnv.TIER = "thorough"
-Sub(S, n) == IF Thorough \/ Cardinality(S) <= n THEN S ELSE RandomSubset(n, S)
+\* (the thorough tier samples three times as many of each operand set)
+Sub(S, n) == LET m == IF Thorough THEN 3 * n ELSE n IN IF Cardinality(S) <= m THEN S ELSE RandomSubset(m, S)
 Cases == {[op |-> "serial", ts |-> <<a>>] : a \in Pool} \cup {[op |-> "serial", ts |-> <<a, b, c>>] : a, b, c \in Sub(Pool, 9)}
          \cup {[op |-> "serial", ts |-> <<CDs[i], CDs[j], CDs[k], B("add", CDs[j], x)>>] : i, j, k \in 1..Len(CDs)}
          \cup {[op |-> "serial", ts |-> <<a, b>>] : a, b \in Inexact}
